@@ -141,7 +141,7 @@ let process line =
       end in
     let sw = c05_interface_build fdst fsrc rm in
     let eq = match List.nth ifs p, sw with Some a, Some b -> if c05_iface_eqb a b then 1 else 0 | _ -> 0 in
-    Printf.sprintf "r%d RI[%s] IF[%s] SE[%s] SD[1] EQ[1/%d/1/1/1] ST[1/1/1] %s%s" p ri ifstr se eq (join " " (fun phs -> List.nth phs p) phase_strs) dtstr) ranks in
+    Printf.sprintf "r%d RI[%s] IF[%s] SE[%s] SD[1] EQ[1/%d/1/1/1] ST[1/1/1] CP[1] %s%s" p ri ifstr se eq (join " " (fun phs -> List.nth phs p) phase_strs) dtstr) ranks in
   (* spec, from the decomposition alone *)
   let fa = c05_contains fsrc and ft = c05_contains fdst in
   let spec = join " ;; " (fun p ->
@@ -151,7 +151,7 @@ let process line =
         (ints (List.map (fun e -> e.l) (List.filter (fun e -> fa (nat_of_int e.a)) (List.sort (fun x y -> compare x.g y.g) (List.nth rss p).s))))
         (ints (List.map (fun e -> e.l) (List.filter (fun e -> ft (nat_of_int e.a)) (List.sort (fun x y -> compare x.g y.g) (List.nth rss p).t)))) in
     let phs = join " " (fun ph ->
-      let fwd = ph <> 1 && ph <> 4 in
+      let fwd = ph <> 1 && ph <> 4 && ph <> 6 in
       let add = add && ph < 3 in
       let two_b' = two_b in ignore two_b';
       let ds = List.mapi (fun p s -> mk_data ph p 0 s) szs in
@@ -164,9 +164,9 @@ let process line =
       else
         let calls = c05_spec_scatter_bwd two_b ign_b fa ft dec_raw dt np in
         let fin = c05_spec_final add (List.nth ds p) calls in
-        Printf.sprintf "P%d[S:%s D:%s T:%s]" ph (calls_str calls) (odata_str fin) (if tc then odata_str (some (List.nth dt p)) else odata_str fin)) ([0; 1; 2] @ (if cgs then [5] else []) @ (if dt then [3; 4] else [])) in
+        Printf.sprintf "P%d[S:%s D:%s T:%s]" ph (calls_str calls) (odata_str fin) (if tc then odata_str (some (List.nth dt p)) else odata_str fin)) ([0; 1; 2] @ (if cgs then [5; 6] else []) @ (if dt then [3; 4] else [])) in
     let sisw = c05_spec_interface two_b ign_b ft fa dec_raw np in
-    Printf.sprintf "r%d IF[%s] SE[%s] SD[1] EQ[1/%d/1/1/1] ST[1/1/1] %s" p (imap_str si) se (if c05_iface_eqb si sisw then 1 else 0) phs) ranks in
+    Printf.sprintf "r%d IF[%s] SE[%s] SD[1] EQ[1/%d/1/1/1] ST[1/1/1] CP[1] %s" p (imap_str si) se (if c05_iface_eqb si sisw then 1 else 0) phs) ranks in
   ignore ifs_ok;
   print_string model; print_string " || "; print_string spec;
   if !order_dep then print_string " ORDER-DEPENDENT";
